@@ -98,7 +98,22 @@ func (mw MeshWriter) Write(mesh modeling.Mesh, writer io.Writer) error {
 			})
 		}
 		for _, p := range mesh.Float2Attributes() {
-			if claimedV2[p] || p == modeling.TexCoordAttribute {
+			if claimedV2[p] {
+				continue
+			}
+			if p == modeling.TexCoordAttribute {
+				// Triangles carry their texture coordinates per corner in
+				// the face element. Every other topology has no face
+				// element: store them per vertex under the names the
+				// reader recognises.
+				if mesh.Topology() != modeling.TriangleTopology {
+					writers = append(writers, Vector2PropertyWriter{
+						ModelAttribute: p,
+						Type:           Float,
+						PlyPropertyX:   "s",
+						PlyPropertyY:   "t",
+					})
+				}
 				continue
 			}
 			writers = append(writers, Vector2PropertyWriter{
